@@ -164,4 +164,87 @@ theorem lookup_after_draw (hd : Handler) (key : Nat) (enc : List UInt8) (h : Wf 
     rw [hpre]
     simp [List.lookup]
 
+/-! ## sessions: many draws on one handler within the budget -/
+
+/-- a sequence of draws: `(key, what a fresh encoding would give)` -/
+def drawAll (hd : Handler) : List (Nat × List UInt8) → Handler
+  | [] => hd
+  | (k, enc) :: ops => drawAll (hd.draw k enc).2 ops
+
+theorem evictLru_noop (l : List (Nat × List UInt8)) (size : Nat) (h : size ≤ imageCacheSize) :
+    evictLru l size = (l, size) := by
+  cases l with
+  | nil => simp [evictLru]
+  | cons e rest =>
+    obtain ⟨k, v⟩ := e
+    have : ¬ size > imageCacheSize := by omega
+    simp [evictLru, this]
+
+theorem lookup_filter_ne {k key : Nat} (hk : k ≠ key) : ∀ imgs : List (Nat × List UInt8),
+    (imgs.filter (fun e => e.1 != key)).lookup k = imgs.lookup k := by
+  intro imgs
+  induction imgs with
+  | nil => simp
+  | cons p rest ih =>
+    obtain ⟨a, v⟩ := p
+    by_cases ha : a = key
+    · subst ha
+      have : (k == a) = false := by simp [hk]
+      simp [List.filter_cons, List.lookup, this, ih]
+    · have hf : ((a, v) :: rest).filter (fun e => e.1 != key) = (a, v) :: rest.filter (fun e => e.1 != key) := by
+        simp [List.filter_cons, ha]
+      rw [hf]
+      simp only [List.lookup]
+      split <;> simp [ih]
+
+/-- one draw within the budget keeps every cached entry and does not let `size` grow by more than the
+encoding -/
+theorem draw_keeps (hd : Handler) (key : Nat) (enc : List UInt8) (hb : hd.size + enc.length ≤ imageCacheSize) :
+    (hd.draw key enc).2.size ≤ hd.size + enc.length ∧
+      ∀ k b, hd.imgs.lookup k = some b → (hd.draw key enc).2.imgs.lookup k = some b := by
+  unfold Handler.draw
+  split
+  · rename_i bytes hl
+    refine ⟨by simp, ?_⟩
+    intro k b hk
+    by_cases h : k = key
+    · subst h
+      rw [hl] at hk
+      simp [List.lookup, hk]
+    · have : (k == key) = false := by simp [h]
+      simp only [List.lookup, this]
+      rw [lookup_filter_ne h]; exact hk
+  · rename_i hl
+    simp only [evict, evictLru_noop _ _ hb, List.reverse_reverse]
+    refine ⟨Nat.le_refl _, ?_⟩
+    intro k b hk
+    by_cases h : k = key
+    · subst h; rw [hl] at hk; simp at hk
+    · have : (k == key) = false := by simp [h]
+      simp [List.lookup, this, hk]
+
+theorem drawAll_keeps : ∀ (ops : List (Nat × List UInt8)) (hd : Handler),
+    hd.size + total ops ≤ imageCacheSize →
+    ∀ k b, hd.imgs.lookup k = some b → (drawAll hd ops).imgs.lookup k = some b := by
+  intro ops
+  induction ops with
+  | nil => intro hd _ k b h; exact h
+  | cons op ops ih =>
+    intro hd hb k b h
+    obtain ⟨key, enc⟩ := op
+    simp only [drawAll]
+    have hb' : hd.size + enc.length ≤ imageCacheSize := by simp [total] at hb; omega
+    obtain ⟨hs, hk⟩ := draw_keeps hd key enc hb'
+    exact ih _ (by simp [total] at hb ⊢; omega) k b (hk k b h)
+
+/-- after a draw within the budget the image is cached with the bytes written -/
+theorem lookup_after_draw_budget (hd : Handler) (key : Nat) (enc : List UInt8)
+    (hb : hd.size + enc.length ≤ imageCacheSize) :
+    (hd.draw key enc).2.imgs.lookup key = some (hd.draw key enc).1 := by
+  unfold Handler.draw
+  split
+  · simp [List.lookup]
+  · simp only [evict, evictLru_noop _ _ hb, List.reverse_reverse]
+    simp [List.lookup]
+
 end SurfProofs.Lemmas.SixelCache
